@@ -331,6 +331,16 @@ func Wait(cond func() bool, label string) {
 	}
 }
 
+// RecvReady is used inside a select case expression: it blocks (scheduler-wise) until cond
+// holds and then returns ch unchanged, so `case v := <-RecvReady(ch, cond, l).(chan T):`
+// behaves like `case v := <-ch:` with a visible wait in front of the select.
+//
+//go:norace
+func RecvReady(ch interface{}, cond func() bool, label string) interface{} {
+	Wait(cond, label)
+	return ch
+}
+
 // Go starts fn as a new scheduled thread of the active execution (or as a plain goroutine
 // when no scheduler is active). The overlay rewrites `go` statements of the code under
 // test into calls of Go, so that goroutines spawned inside it are scheduled too.
